@@ -56,8 +56,9 @@ ASSUMPTIONS = [
     "Kelvin-KJS = 2 gamma V_m / (R T ln(p0/p)) + 0.3 nm (Kruk, Jaroniec, Sayari 1997), cylindrical meniscus only",
     "the adsorbed-layer thickness is what the chosen thickness model gives at the measured pressures: for Halsey and "
     "Harkins-Jura the equation typed from the shipped module (0.354 (-5/ln p)^0.333 nm; (0.1399/(0.034 - log10 p))^0.5 nm), "
-    "for the two tabulated curves and user callables whatever the callable returns (the tables' numerical content is not "
-    "part of C16)",
+    "for the two tabulated curves the shipped table read by the harness itself (thickness = loading / monolayer uptake x "
+    "0.354 nm, straight lines between the tabulated points, 0 below the first and the last tabulated value above the "
+    "last), for user callables whatever the callable returns",
     "widths: rel 1e-12 (elementwise re-evaluation of the same callables; 1e-9 with registry adsorbates); zero "
     "thickness volumes: abs 1e-12*max|V| (the arithmetic is exact); distribution clause: |dist*dw - V| <= "
     "4*tolW*|dist|*w_max + 1e-12*|V| (propagates the width tolerance through the difference of two widths)",
@@ -125,6 +126,42 @@ def worker_init():
 
 
 # ---- thickness callables ---------------------------------------------------------------------------------------------
+_TABLE_FILES = {"SiO2 Jaroniec/Kruk/Olivier": "LiChrospher Si-1000 silica.csv",
+                "carbon black Kruk/Jaroniec/Gadkaree": "Cabot BP280 carbon black.csv"}
+_TABLES = {}
+
+
+def _table_thickness(name):
+    """The tabulated reference isotherm read here (plain text parse of the shipped table): thickness = loading / monolayer
+    uptake * 0.354 nm, straight lines between the tabulated points, 0 below the first and the last tabulated thickness
+    above the last one."""
+    if name not in _TABLES:
+        import os
+        import pygaps.data as pgd
+        path = os.path.join(os.path.dirname(pgd.__file__), "stdiso", _TABLE_FILES[name])
+        mono, P, L, in_data = None, [], [], False
+        with open(path, encoding="utf8") as fh:
+            for line in fh:
+                cells = line.rstrip("\n").split(",")
+                if in_data:
+                    if len(cells) >= 2 and cells[0] not in ("", "pressure"):
+                        P.append(float(cells[0]))
+                        L.append(float(cells[1]))
+                elif cells[0].startswith("monolayer uptake"):
+                    mono = float(cells[1])
+                elif cells[0].startswith("data:"):
+                    in_data = True
+        if mono is None or len(P) < 10 or not np.all(np.diff(P) > 0):
+            raise HarnessError(f"cannot read the reference table {path}")
+        _TABLES[name] = (np.array(P), np.array(L) / mono * 0.354)
+    P, T = _TABLES[name]
+
+    def fn(p):
+        p = np.asarray(p, dtype=float)
+        return np.where(p < P[0], 0.0, np.where(p > P[-1], T[-1], np.interp(p, P, T)))
+    return fn
+
+
 def make_thickness(td):
     """-> (argument to hand to the library, callable for the harness, is_zero)"""
     if td["kind"] == "builtin":
@@ -136,6 +173,8 @@ def make_thickness(td):
             return fn, (lambda p: 0.354 * (-5.0 / np.log(np.asarray(p, dtype=float))) ** 0.333), False
         if td["name"] == "Harkins/Jura":
             return fn, (lambda p: (0.1399 / (0.034 - np.log10(np.asarray(p, dtype=float)))) ** 0.5), False
+        if td["name"] in _TABLE_FILES:
+            return fn, _table_thickness(td["name"]), False
         return fn, fn, td["name"] == "zero thickness"
     a = td["a"]
     form = td["form"]
